@@ -195,7 +195,7 @@ def run(ctx):
     reach = model.reachable(roots)
     peer_reach = model.reachable(model.peer_roots)
     R.check("C18.0", "TABLE", fi_loop, "recv_loop runs in one PeerThread per peer", ("m", "recv_loop") in model.peer_roots, "peer thread roots: %s" % model.peer_roots)
-    R.floor("C18.0", len(reach), 20, "thread_reachable_functions")
+    R.floor("C18.0", len(reach), 12, "thread_reachable_functions")  # recv_loop, recv_msg, the handlers, parse_payload and what they call
     R.stat("thread_roots", sorted(n for k, n in roots))
     R.stat("thread_reachable", sorted(n for k, n in reach))
     # ---- OWN / ATOM
